@@ -656,8 +656,15 @@ def outliving_state_reads(fa, expr, at):
                 ci = mod.classes[parts[0]]
                 if parts[1] not in ci.methods and parts[1] not in getattr(ci, "nested", {}):
                     out.add(name)
-        elif kind == "getattr" and "call:type" in atoms:
-            out.add("type(...)." + name)
+    # an attribute read off the class of an object: type(x).attr
+    try:
+        full = fexpand(fa, expr, at)
+    except (AnalysisError, RecursionError):
+        full = expr
+    for n in ast.walk(full):
+        if isinstance(n, ast.Attribute) and isinstance(n.value, ast.Call) and isinstance(n.value.func, ast.Name) and n.value.func.id == "type" \
+                and len(n.value.args) == 1 and not (n.attr.startswith("__") and n.attr.endswith("__")):
+            out.add("type(...)." + n.attr)
     return sorted(out)
 
 
